@@ -164,6 +164,8 @@ pub trait HasParent: HasContext {
     fn ancestor(&self, id: usize) -> bool {
         let mut parent_id = self.parent_id();
         while let Some(node) = parent_id.and_then(|v| self.context().node(v)) {
+            #[cfg(xml_rs_verif)]
+            xml_nom::verif::tick();
             if node.id() == id {
                 return true;
             }
@@ -2185,6 +2187,8 @@ impl Element for XmlElement {
     }
 
     fn in_scope_namespace(&self) -> error::Result<UnorderedSet<XmlNode<XmlNamespace>>> {
+        #[cfg(xml_rs_verif)]
+        xml_nom::verif::tick();
         let mut items = self.namespaces()?;
 
         if let Some(parent) = self.parent().ok().as_ref() {
@@ -4207,6 +4211,8 @@ fn attribute_name(name: &parser::AttributeName) -> (String, Option<String>) {
 }
 
 fn attr_value_from_name(name: &str, context: &Context) -> error::Result<String> {
+    #[cfg(xml_rs_verif)]
+    xml_nom::verif::tick();
     let entity = context.entity(name)?;
     let mut parsed = String::new();
     for value in entity.borrow().values().unwrap_or_default() {
